@@ -452,7 +452,8 @@ def l2_run(hist, budget, keys, root):
 
 
 def l2_bfs(cfg):
-    budget, keys, depth = cfg
+    budget, keys, depth = cfg[:3]
+    first = cfg[3] if len(cfg) > 3 else None
     install_audit()
     root = os.path.join(scratch_dir("c06l2"), "store")
     ops = []
@@ -464,7 +465,7 @@ def l2_bfs(cfg):
     for d in range(depth):
         nxt = []
         for hist in level:
-            for op in ops:
+            for op in (ops if (d > 0 or first is None) else [ops[first]]):
                 h = hist + (op,)
                 bad = l2_run(h, budget, keys, root)
                 res["transitions"] += 1
@@ -515,8 +516,8 @@ def run(ctx):
     ctx.extra["l1_configs"] = [{"budget": c[0], "keys": len(c[1]), "classes": list(c[2]), "states": r["states"],
                                 "transitions": r["transitions"], "max_depth": r["depth"], "closure": r["closure"]}
                                for c, r in zip(cfgs, results)]
-    l2 = pmap(l2_bfs, [(4096, KEYS3[:2], 4 if thorough else 3), (1024, KEYS3[:2], 4 if thorough else 3),
-                       (4096, KEYS3, 3 if thorough else 2)])
+    l2cfg = [(4096, KEYS3[:2], 5 if thorough else 4), (1024, KEYS3[:2], 5 if thorough else 4), (4096, KEYS3, 3 if thorough else 2)]
+    l2 = pmap(l2_bfs, [c + (i,) for c in l2cfg for i in range(6 * len(c[1]))], chunksize=1)
     ctx.merge(l2)
     ctx.extra["l2_histories"] = sum(r["transitions"] for r in l2)
     ctx.count(evaluations=ctx.transitions)
